@@ -25,12 +25,12 @@ RULE = ('seeded configurations: sine-velocity trajectories sampled at 50..500 ms
         ' Round 3: every sample of every sensor in [first grid time, last input time) must be among the measurement blocks of the estimate (conservation), epochs of two receivers equal to 1 ulp but not bitwise.'
         ' Round 4: a third of the sensors report a full (correlated) covariance.'
         ' Round 5: sensors listed in any order.'
-        ' Round 6: user-defined Measurement subclasses delivering ONE observation per sample (east speed, altimeter) mixed with the built-in sensors.')
+        ' Round 6: user-defined Measurement subclasses delivering ONE observation per sample (east speed, altimeter) mixed with the built-in sensors; sensor-model axes disabled with negative marks.')
 ASSUMPTIONS = ['the reference conditions the joint Gaussian in one shot (Cholesky of the full innovation covariance); agreement demanded to '
                '1e-5 of the reported standard deviation, times cond/1e9 beyond that conditioning (prototype agreement 1e-13; worst seen in calibration 2.3e-7 at cond 2.5e9); cases whose innovation covariance has cond > 1e10 are '
                'counted as ill-conditioned and not decided', 'measurement rows are attached to the grid row at or before their epoch, which is '
                'how the filter linearises them']
-REQUIRED_OBS = ['user_defined_scalar_sensors', 'sensors_with_correlated_noise', 'samples_accounted', 'runs', 'grid_points', 'measurement_blocks', 'sd_compared', 'estimates_compared', 'trajectory_compared',
+REQUIRED_OBS = ['models_with_negative_disable_marks', 'user_defined_scalar_sensors', 'sensors_with_correlated_noise', 'samples_accounted', 'runs', 'grid_points', 'measurement_blocks', 'sd_compared', 'estimates_compared', 'trajectory_compared',
                 'innovations_compared', 'midpoint_crosschecked', 'with_walk', 'with_scale_misal', 'two_d', 'off_grid_epochs']
 REQUIRED_CLASSES = {'all': ['3d', '2d']}
 LLA = ['lat', 'lon', 'alt']
@@ -104,6 +104,15 @@ def random_model(rng, scale_bias, scale_noise, scale_walk, allow_sm):
               noise=np.where(noise_on, scale_noise * 10 ** rng.uniform(-2, 2, 3), 0.0) if noise_on.any() else None,
               bias_walk=np.where(walk_on, scale_walk * 10 ** rng.uniform(-2, 2, 3), 0.0) if walk_on.any() else None,
               scale_misal_sd=sm if sm.any() else None)
+    # Round 6: the documented encoding "non-positive elements disable" - an axis switched off with a NEGATIVE mark instead of 0
+    mrng = np.random.Generator(np.random.PCG64(int(rng.integers(0, 2 ** 31))))
+    if mrng.random() < 0.35:
+        for k_ in ('bias_sd', 'noise', 'bias_walk', 'scale_misal_sd'):
+            if kw[k_] is not None and (np.asarray(kw[k_]) == 0).any():
+                a_ = np.array(kw[k_], float)
+                a_[a_ == 0] = mrng.choice([-1.0, -0.5, -1e-3], int((a_ == 0).sum()))
+                kw[k_] = a_
+                kw['_negative_marks'] = True
     return kw
 
 
@@ -121,6 +130,7 @@ def build(seed, wa):
     with_inc = bool(rng.integers(0, 2))
     gkw = random_model(rng, 1e-5, 1e-6, 1e-7, with_inc)
     akw = random_model(rng, 1e-2, 1e-3, 1e-4, with_inc)
+    negative_marks = int(bool(gkw.pop('_negative_marks', False))) + int(bool(akw.pop('_negative_marks', False)))
     gm, am = inertial_sensor.EstimationModel(**gkw), inertial_sensor.EstimationModel(**akw)
     gp = inertial_sensor.Parameters.from_EstimationModel(gm, rng=int(rng.integers(0, 2 ** 31)))
     ap = inertial_sensor.Parameters.from_EstimationModel(am, rng=int(rng.integers(0, 2 ** 31)))
@@ -199,7 +209,7 @@ def build(seed, wa):
             A_ = np.eye(3) + 0.6 * rng.uniform(-1, 1, (3, 3))
             sn.R = float(sn.R[0, 0]) * (A_ @ A_.T)
             correlated += 1
-    return dict(correlated=correlated, scalar=scalar, traj=traj, nominal=nominal, comp=comp, inc=inc if with_inc else None, gkw=gkw, akw=akw, sds=sds, sensors=sensors,
+    return dict(correlated=correlated, scalar=scalar, negative_marks=negative_marks, traj=traj, nominal=nominal, comp=comp, inc=inc if with_inc else None, gkw=gkw, akw=akw, sds=sds, sensors=sensors,
                 time_step=time_step, wa=wa, dt=dt, off_grid=off_grid,
                 describe=dict(dt=dt, time_step=time_step, rows=len(traj), with_increments=with_inc, nominal_is_computed=nominal is comp,
                               gyro={k: (None if v is None else np.asarray(v).tolist()) for k, v in gkw.items()},
@@ -402,5 +412,6 @@ def run_case(case):
     obs['two_d'] = int(not wa)
     obs['sensors_with_correlated_noise'] = C['correlated']
     obs['user_defined_scalar_sensors'] = C['scalar']
+    obs['models_with_negative_disable_marks'] = C['negative_marks']
     obs['off_grid_epochs'] = C['off_grid']
     return dict(violations=out[:8], obs=obs, nontrivial=True, sample=dict(config=cfg, grid_points=K, states=n, measurement_blocks=len(meas), cond=cond))
